@@ -56,11 +56,14 @@ def run(ch, tier):
     nint = cs.int(2, 4)
     ncall = cs.int(1, 3)
     sims = []
+    twins = cs.flag(1, 3)      # every interpreter runs the same statechart: their sends can be equal by value
+    anon = cs.flag(1, 2)
     for i in range(nint):
         cfg = swarm(cs, Cfg(sends=True, notify=True, delays=True, max_states=8), tier)
         cfg.max_states = min(cfg.max_states, 8)
         cfg.max_trans = min(cfg.max_trans, 10)
-        sp = gen_spec(ch.s('chart%d' % i), cfg)
+        cfg.anon = anon
+        sp = sims[0].sp if (twins and sims) else gen_spec(ch.s('chart%d' % i), cfg)
         P = Probe(tag='i%d' % i)
         P.uid = 100000 * (i + 1)
         sims.append(Sim(sp, probe=P))
@@ -127,15 +130,21 @@ def run(ch, tier):
         if r.ms is not None and r.ms.event is not None:
             e = r.ms.event
             info = sim.all_uids.get(r.consumed_key)
-            if info is None:
+            if r.consumed_uid is None:
+                # an event without identity: only its class, name and position in the queue can be checked
+                if not r.consumed_head:
+                    return res.fail('delivery-order', 'i%d consumed %r (%s); its queue model prescribes %s as the next %s event' % (
+                        i, e, type(e).__name__, r.head and (r.head[3], r.head[2]), 'internal' if r.head_internal else 'external'), **ctx())
+                res.stats['value_equal_events_consumed'] += 1
+            elif info is None:
                 return res.fail('unexpected-delivery', 'i%d consumed %r (%s) which no bound sender delivered to it and nobody queued' % (
                     i, e, type(e).__name__), **ctx())
-            if info['consumed_at'] == 'twice':
+            elif info['consumed_at'] == 'twice':
                 return res.fail('delivered-twice', 'i%d consumed %r a second time' % (i, e), **ctx())
-            if not r.consumed_head:
+            elif not r.consumed_head:
                 return res.fail('delivery-order', 'i%d consumed %r; its queue model prescribes uid %s (%s)' % (
                     i, e, r.head and r.head[2], r.head and r.head[3]), **ctx())
-            if info['due'] > r.T:
+            elif info['due'] > r.T:
                 return res.fail('delivered-delay-ignored', 'i%d consumed %r at %s, due at %s' % (i, e, float(r.T), float(info['due'])), **ctx())
         elif r.head is not None and not eventless:
             return res.fail('delivery-missing', 'i%d consumed nothing at %s although uid %s (%s, %s) was due since %s' % (
@@ -147,7 +156,7 @@ def run(ch, tier):
                 for e in m.sent_events:
                     if isinstance(e, InternalEvent):
                         sent.append(e)
-        code_sends = [x[1] for x in r.log if x[0] == 'send']
+        code_sends = [x[1] for x in r.log if x[0] in ('send', 'anon')]
         if [e.data.get('uid') for e in sent] != code_sends:
             return res.fail('sent-list-differs', 'MacroStep lists sent uids %s, the code sent %s' % ([e.data.get('uid') for e in sent], code_sends), **ctx())
         want = []
